@@ -77,7 +77,7 @@ impl fmt::Debug for DhcpOp {
     }
 }
 
-#[derive(PartialEq, Eq)]
+#[derive(PartialEq, Eq, Clone, Copy)]
 pub struct HwType(u8);
 pub const HWTYPE_ETHERNET: HwType = HwType(1);
 
